@@ -328,6 +328,28 @@ Section Fixed.
   Qed.
 End Fixed.
 
+(* replay with the position check (og_wal_pos): a record can only be applied inside the file or at its
+   end, so it extends the file by at most its own payload, and the whole replay by at most the log *)
+Theorem replay_record_bound be limit d pos v d' :
+  wal_apply_rec og_fixed be limit d (pos, v) = OOk d' -> pos <= lenN d /\ lenN d' <= N.max (lenN d) (pos + lenN v).
+Proof.
+  unfold wal_apply_rec. cbn [og_wal_pos og_fixed andb].
+  destruct (lenN d <? pos) eqn:E1; [discriminate|].
+  destruct (i64_max <? pos) eqn:E2; [discriminate|]. cbn [andb].
+  destruct v as [|b v'].
+  - intros H. injection H as <-. split; [lia|].
+    rewrite lenN_app, lenN_zeros. pose proof (lenN_firstn_n d pos). lia.
+  - intros H. injection H as <-. split; [lia|].
+    replace (pos - lenN d) with 0 by lia. change (zeros 0) with (@nil byte). rewrite app_nil_r.
+    unfold put, lenN. rewrite !app_length, firstn_length, skipn_length. lia.
+Qed.
+
+Theorem recovery_length_bound be limit data wal :
+  limit <= isize_max -> lenN wal <= limit ->
+  ok2 (wal_recover og_fixed be limit data wal) /\
+  forall d, wal_recover og_fixed be limit data wal = OOk d -> lenN d <= lenN data + lenN wal.
+Proof. intros H1 H2. now apply recover_fixed. Qed.
+
 (* ------------------------------------------------------------------ *)
 (* with the limit of the property: 1024 * (|data| + |log|) + 65536      *)
 (* ------------------------------------------------------------------ *)
@@ -364,7 +386,7 @@ Qed.
 (* witnesses: the code before the repairs, and the known class          *)
 (* ------------------------------------------------------------------ *)
 
-Definition og_current : oguards :=   (* /repo after 51d65f2: all but the log position check *)
+Definition og_current : oguards :=   (* /repo after 51d65f2 and before fixes/C07-wal-position.diff: all but the log position check *)
   {| og_read_checked := true; og_table_checked := true; og_wal_framed := true; og_wal_pos := false |}.
 
 (* 17 bytes: the version record promises 8 value bytes, one is there *)
